@@ -308,4 +308,32 @@ example : (run xeCfg (modeDev xeDev) xeInit xeHist).ulog = [⟨some "privilege_e
     (run xeCfg (modeDev xeDev) xeInit xeHist).ch.dev.mode = "privilege_exec" := by
   decide +kernel
 
+/-! ### the desired level is a parameter: drivers constructed with a non-default `default_desired_privilege_level`
+
+Every theorem above is stated for an arbitrary `c : Cfg`; `c.default` (the constructor argument
+`default_desired_privilege_level`) is constrained only by `c.default ∈ names t` (`Inv.dflt`), so each holds for EVERY legal value.
+Below: the hypotheses are met for every level of the EOS table as the desired level, and what a history with a registered
+session, an aborted send_configs and following commands does when the desired level is `exec` (kernel-evaluated). -/
+
+/-- the EOS vendor device with one configuration session: `abort` leaves the session for privilege_exec -/
+def eosDesDev : MCfg := { failLines := ["badline"], extra := [("sessA", "abort", "privilege_exec")] }
+/-- EOS with an ARBITRARY desired level `d` (abort shape and session template regenerated from the live source) -/
+def eosDesCfg (d : Name) : Cfg := { ord := neighbours, default := d, abort := eosAbort, sess := eosSess }
+
+theorem eos_init_inv_every_desired : ∀ d ∈ names eos, ∀ login ∈ names eos,
+    Inv (eosDesCfg d) eosDesDev ({ tbl := eos, ch := { dev := { mode := login } } } : W MDev) := by
+  intro d hd login hl
+  exact init_inv (eosDesCfg d) eosDesDev eos login platform_tables_WF.2.2.2.1 (envOK_of (by decide) (by decide) (by decide)) hd
+    (by show ∀ m ∈ names eos, sessOf eos m = true → devStep eosDesDev eos m "abort" = "privilege_exec"; decide) hl
+
+def eosDesHist : List Op :=
+  [.register "sessA", .sendCommand "show a", .sendConfigs ["cfg a", "badline", "cfg b"] "sessA" true, .sendCommands ["show b", "show c"] false]
+
+theorem eos_desired_exec_run :
+    (run (eosDesCfg "exec") (modeDev eosDesDev) { tbl := eos, ch := { dev := { mode := "privilege_exec" } } } eosDesHist).ulog =
+      [⟨some "exec", "exec", "show a", .command⟩, ⟨some "sessA", "sessA", "cfg a", .config⟩, ⟨some "sessA", "sessA", "badline", .config⟩,
+       ⟨some "exec", "exec", "show b", .command⟩, ⟨some "exec", "exec", "show c", .command⟩] ∧
+    (run (eosDesCfg "exec") (modeDev eosDesDev) { tbl := eos, ch := { dev := { mode := "privilege_exec" } } } eosDesHist).belief = "exec" := by
+  decide +kernel
+
 end Scrapli.Priv
